@@ -314,7 +314,7 @@ func reportSweep(r *evid.Run, o *c10.Outcome, sp *c10.SweepPlan) {
 	s := compact(o).(map[string]any)
 	s["sweep"] = sp
 	sweepMu.Lock()
-	if len(sweepSamples) < 3 && (sp.Fixed != "" || len(sweepSamples) < 1) {
+	if len(sweepSamples) < 3 && sp.Fixed != "" {
 		sweepSamples = append(sweepSamples, s)
 	}
 	sweepMu.Unlock()
